@@ -186,13 +186,13 @@ def lo_hi(c):
 def run_e2e(ctx):
     combos = e2e_schemas(ctx)
     b = Batch(ctx, "c15")
-    positions = ["required", "optional", "nullable"]
+    positions = ["required", "optional", "nullable", "definition", "definition-required"]      # declared types go through another call site of the type selection
     meta = []
     for i, c in enumerate(combos):
         lo, hi = lo_hi(c)
         if lo is not None and hi is not None and lo > hi:
             continue      # contradictory bounds: the sized literal may not even fit the type (C01's business)
-        pos = positions[i % 3]
+        pos = positions[i % 5]
         mult = [None, None, 3, 5][i % 4]
         prop = {"type": ["integer", "null"] if pos == "nullable" else "integer"}
         for k, kw in (("min", "minimum"), ("max", "maximum")):
@@ -204,7 +204,9 @@ def run_e2e(ctx):
         if mult:
             prop["multipleOf"] = mult
         schema = {"type": "object", "properties": {"x": prop}}
-        if pos == "required":
+        if pos.startswith("definition"):
+            schema = {"type": "object", "$defs": {"N": prop}, "properties": {"x": {"$ref": "#/$defs/N"}}}
+        if pos in ("required", "definition-required"):
             schema["required"] = ["x"]
         vals = set()
         for v in [lo, hi] + [t for t in (-2 ** 31, -2 ** 15, -128, 0, 127, 255, 32767, 65535, 2 ** 31 - 1, 2 ** 32 - 1)]:
@@ -221,7 +223,7 @@ def run_e2e(ctx):
         for flag in (False, True):
             cid = "c%d%s" % (i, "on" if flag else "off")
             jobs = [{"t": "S", "doc": json.dumps({"x": v}), "x": v} for v in vals]
-            if pos != "required":
+            if pos not in ("required", "definition-required"):
                 jobs.append({"t": "S", "doc": "{}", "x": None})
                 jobs.append({"t": "S", "doc": '{"x": null}', "x": None})
             b.add({"id": cid, "cfg": {"min_sized_ints": flag, "tags": ["json"], "mappings": [{"id": "", "root": "S", "package": cid, "output": cid + "/gen.go"}]},
